@@ -12,6 +12,13 @@ CONSTANTS
   MaxSess = 2
   FixProtoCache = TRUE
   Bug = "none"
+INVARIANT InvDiagnosis
+INVARIANT InvResult
+INVARIANT InvSolution
+INVARIANT InvBindAgree
+INVARIANT InvSessDiagnosis
+INVARIANT InvSessResult
+INVARIANT InvSessAlone
 INVARIANT EmitLib
 INVARIANT EmitDone
 INVARIANT EmitSess
